@@ -460,17 +460,25 @@ class Driver:
         t = []
         root = self.handle(spec['root'], t)
         ap = self.algo_path('Order')
+        mf = bool(spec.get('method_first'))       # the closure is attached before transpose() / pre() / post()
         if self.directed:
             s = self.node_call('preorder' if spec['kind'] == 'pre' else 'postorder', [root])
-            if spec.get('transpose'):
+            if spec.get('transpose') and not mf:
                 s = ex.call(f'{ap}::transpose', [s])
         else:
             s = self.node_call('order', [root])
-            s = ex.call(f"{ap}::{spec['kind']}", [s])
+            if not mf:
+                s = ex.call(f"{ap}::{spec['kind']}", [s])
         log = []
         clo = self.make_closure(spec, log)
         if clo is not None:
             s = ex.call(f"{ap}::{'filter' if spec['method'] == 'filter' else 'for_each'}", [s, clo])
+        if mf:
+            if self.directed:
+                if spec.get('transpose'):
+                    s = ex.call(f'{ap}::transpose', [s])
+            else:
+                s = ex.call(f"{ap}::{spec['kind']}", [s])
         sc = Cell(s)
         if spec['mode'] == 'nodes':
             r = ex.call(f'{ap}::search_nodes', [Ref(sc)])
